@@ -93,7 +93,7 @@ peg::parser! {
       // 語幹の部分
       pub rule stem() -> String = n:$([^ ';' | '/']+) { n.to_string() }
       // 品詞部分
-      rule fixed_okuri() -> Okuri = "(" n:$("-" (kana()+)) ** "," ")" { Okuri::Fixed(n.first().unwrap()[1..].to_string()) }
+      rule fixed_okuri() -> Okuri = "(" n:$("-" (kana()+)) ++ "," ")" { Okuri::Fixed(n.first().unwrap()[1..].to_string()) }
       rule char_class() -> Okuri = "[" n:$(['a'..='z' | '>' | '<' | '#' | '*' | '-' | '(' | ')' | 'φ' | '.']+) "]" { Okuri::CharClass(n.to_string()) }
       // 複数の送り仮名がある場合は、Fixedを優先する
       rule okuri() -> Okuri = n:(fixed_okuri() / char_class()) (fixed_okuri() / char_class())? { n }
